@@ -500,6 +500,43 @@ Proof.
   pose proof (I _ _ _ _ H1 I1). pose proof (I _ _ _ _ H2 I2). congruence.
 Qed.
 
+(* ------------------------------------------------------------------ lock has no timeout *)
+(* lock / with-entry on an owned mutex: the step is the identity, however often it is retried — the
+   instruction never completes without the mutex (Mutex_Lock = blocking pthread_mutex_lock) *)
+Lemma blocked_lock_step : forall t g l s m k o,
+  nth_error (thr g) t = Some (l, s) ->
+  (code l = KOp (OLock m) :: k \/ exists bd, code l = KOp (OWith m bd) :: k) ->
+  mtx g m = Some o -> G t g = g.
+Proof.
+  intros t g l s m k o Ht Hc Hm. unfold gstep. destruct (aborted g); auto. rewrite Ht.
+  destruct (negb (started s) || done l || fatal l || ub s); auto.
+  destruct Hc as [-> | [bd ->]]; unfold acquire; rewrite Hm; reflexivity.
+Qed.
+
+Theorem lock_waits_gen : forall n t g l s m k o,
+  nth_error (thr g) t = Some (l, s) ->
+  (code l = KOp (OLock m) :: k \/ exists bd, code l = KOp (OWith m bd) :: k) ->
+  mtx g m = Some o -> Nat.iter n (G t) g = g.
+Proof.
+  induction n; intros; simpl; auto. rewrite (IHn t g l s m k o); auto. eapply blocked_lock_step; eauto.
+Qed.
+
+(* ... and when it does complete, the thread owns the mutex *)
+Theorem lock_acquires_gen : forall t g l s m k,
+  nth_error (thr g) t = Some (l, s) ->
+  aborted g = false -> started s = true -> done l = false -> fatal l = false -> ub s = false ->
+  (code l = KOp (OLock m) :: k \/ exists bd, code l = KOp (OWith m bd) :: k) ->
+  mtx g m = None ->
+  mtx (G t g) m = Some t /\
+  option_map (fun ls => holding (snd ls)) (nth_error (thr (G t g)) t) = Some (m :: holding s).
+Proof.
+  intros t g l s m k Ht Hab Hst Hdo Hfa Hub Hc Hm.
+  assert (Hlen : t < length (thr g)) by (apply nth_error_Some; congruence).
+  unfold gstep. rewrite Hab, Ht, Hst, Hdo, Hfa, Hub. simpl.
+  destruct Hc as [-> | [bd ->]]; unfold acquire; rewrite Hm; unfold advance, advance_ok, set_mtx; simpl;
+    (split; [unfold fupd; rewrite Nat.eqb_refl; reflexivity | rewrite nth_error_upd_eq; auto]).
+Qed.
+
 (* ------------------------------------------------------------------ guarded counters lose no update *)
 Lemma nmem_in : forall m h, nmem m h = true -> In m h.
 Proof.
@@ -706,5 +743,5 @@ Proof. reflexivity. Qed.
 Lemma source_shapes :
   thr_exc_via_tls = true /\ thr_gc_via_tls = true /\ thr_current_via_key = true /\
   thr_init_own_records = true /\ thr_join_waits = true /\ thr_with_is_lock_unlock = true /\
-  thr_trylock_busy_result = false /\ thr_mark_own_tls_only = true.
+  thr_trylock_busy_result = false /\ thr_mark_own_tls_only = true /\ thr_lock_blocking = true.
 Proof. repeat split; reflexivity. Qed.
